@@ -17,7 +17,7 @@ def rand_cfg(rng, codec=None, audio=None, fast=None, meta=None, dims=None):
     w, h = dims or rng.choice([(640, 480), (1920, 1080), (16, 16), (65535, 65535), (1, 1), (320, 240)])
     return dict(codec=codec, audio=audio, fast=fast, meta=meta, w=w, h=h,
                 rate=rng.choice(AAC_RATES + [12345, 0, 192000]) if audio not in ("opus",) else rng.choice([48000, 44100]),
-                ch=rng.choice([1, 2, 2, 2, 3, 6, 8]))
+                ch=rng.choice([1, 2, 2, 2, 3, 6, 8, 2, 1, 0, 255, 65535]))
 
 
 def emit_cfg(c, cfg, rng):
@@ -422,13 +422,17 @@ def fam_fn_codec(rng, n, prefix):
 
 
 # ---------- rejection matrix (C05/C04/C03/C06): every rejection reason x position x codec ----------
-def reject_variants(rng, cfg, t_ok, last_v_t, last_a_t):
+def reject_variants(rng, cfg, t_ok, last_v_t, last_a_t, small=False):
     """calls that are rejected for exactly one reason each; timestamps chosen so that the
     timing checks pass whenever the reason is about the payload"""
     codec = cfg["codec"]
     a = cfg["audio"] if has_audio(cfg) else None
     later_v = last_v_t + rng.choice([0.25, 1.0, 3.0])
     later_a = max(last_a_t, last_v_t) + rng.choice([0.125, 0.5, 2.0])
+    if small:
+        # a rejected call whose timestamp lies BETWEEN its accepted neighbours
+        later_v = last_v_t + rng.choice([0.001, 0.005, 0.01])
+        later_a = (last_a_t if last_a_t > 0 else last_v_t) + rng.choice([0.001, 0.005, 0.01])
     out = [
         ("v-empty", ["wv", fb(later_v), "-", 0]),
         ("v-nan", ["wv", "%x" % NAN, hx(video_delta(rng, codec)), 0]),
@@ -477,7 +481,7 @@ def fam_reject_matrix(rng, n, prefix):
         codec = cfg["codec"]
         nv = rng.range(2, 4)
         vt = [0.5 + i * rng.choice([1 / 30.0, 0.04]) for i in range(nv)]
-        na = rng.range(2, 3) if has_audio(cfg) else 0
+        na = rng.range(2, 5) if has_audio(cfg) else 0
         at = [0.5 + i * rng.choice([0.021, 0.02, 0.033]) for i in range(na)]
         base = [["wv", fb(vt[0]), hx(video_key(rng, codec)), 1]]
         rest = [(t, ["wv", fb(t), hx(video_delta(rng, codec)), 0]) for t in vt[1:]] + \
@@ -502,7 +506,7 @@ def fam_reject_matrix(rng, n, prefix):
             cut = rng.range(1, len(seq) - 1)
             vts = [bits_f64(int(o[1], 16)) for o in seq[:cut] if o[0] == "wv"]
             ats = [bits_f64(int(o[1], 16)) for o in seq[:cut] if o[0] == "wa"]
-            vmid = reject_variants(rng, cfg, 0.0, vts[-1], ats[-1] if ats else 0.0)
+            vmid = reject_variants(rng, cfg, 0.0, vts[-1], ats[-1] if ats else 0.0, small=rng.chance(2, 3))
             # keep only variants that cannot make LATER valid frames invalid: fine, they are all rejected
             nm, bad2 = rng.choice([v for v in vmid if not v[0].endswith("gap")] or vmid)
             ops = seq[:cut] + [bad2] + seq[cut:]
@@ -513,6 +517,71 @@ def fam_reject_matrix(rng, n, prefix):
         for o in ops:
             c.o(*o)
         c.o("fin", 0)
+        out.append(c)
+    return out
+
+
+# ---------- a rejected call between two accepted ones that are far apart (C03/C04/C05/C16) ----------
+def fam_reject_gap(rng, n, prefix):
+    """accepted frame at t0, a call rejected for its payload at t0+g1, then a frame at t0+g2: whether the
+    last one is accepted (and which duration the first one gets) must depend on g2 alone"""
+    out = []
+    lim = 2**32 / 90000.0
+    for i in range(n):
+        cfg = rand_cfg(rng, audio=rng.choice(["aac-lc", "aac-he", "opus"]), dims=(640, 480), meta=0)
+        codec = cfg["codec"]
+        c = Case("%s%d" % (prefix, i), "mux")
+        emit_cfg(c, cfg, rng)
+        t0 = rng.choice([0.0, 0.5, 10.0])
+        g2 = rng.choice([0.04, 1.0, lim - 1.0, lim - 0.0001, lim + 0.0001, lim + 1.0, 50000.0, 90000.0])
+        g1 = g2 * rng.choice([0.25, 0.5, 0.9]) if rng.chance(4, 5) else g2 + 1.0
+        track = rng.choice(["a", "a", "v"])
+        c.o("wv", fb(t0), hx(video_key(rng, codec)), 1)
+        c.o("wa", fb(t0), hx(audio_frame(rng, cfg["audio"])))
+        if track == "a":
+            bad = rng.choice([rng.bytes(rng.range(1, 6)), b"", audio_frame(rng, cfg["audio"])[:1]])
+            c.o("wa", fb(t0 + g1), hx(bad) if bad else "-")
+            c.o("wa", fb(t0 + g2), hx(audio_frame(rng, cfg["audio"])))
+            if rng.chance(1, 2):
+                c.o("wa", fb(t0 + g2 + 0.02), hx(audio_frame(rng, cfg["audio"])))
+        else:
+            c.o("wv", fb(t0 + g1), "-", 0)
+            c.o("wv", fb(t0 + g2), hx(video_delta(rng, codec)), 0)
+            if rng.chance(1, 2):
+                c.o("wv", fb(t0 + g2 + 0.04), hx(video_delta(rng, codec)), 0)
+        c.o("fin", 0)
+        out.append(c)
+    return out
+
+
+# ---------- automatic-timestamp convenience calls, with rejected calls in between (C17) ----------
+def fam_encode_paths(rng, n, prefix):
+    out = []
+    for i in range(n):
+        cfg = rand_cfg(rng, audio=rng.choice(["none", "aac-lc", "aac-lc", "opus"]), dims=(640, 480), meta=rng.choice([0, 0, 5]))
+        codec = cfg["codec"]
+        c = Case("%s%d" % (prefix, i), "mux")
+        emit_cfg(c, cfg, rng)
+        started = False
+        for k in range(rng.range(2, 9)):
+            r = rng.below(12)
+            ms = "%x" % rng.choice([33, 33, 40, 1, 0, 1000, 17])
+            if r < 5:
+                key = (not started) if rng.chance(5, 6) else started
+                c.o("ev", hx(video_key(rng, codec) if key else video_delta(rng, codec)), ms)
+                started = started or key
+            elif r < 6:
+                c.o("ev", "-", ms)
+            elif r < 7:
+                c.o("ev", hx(rng.bytes(rng.range(1, 12))), ms)
+            elif r < 10:
+                a = cfg["audio"] if has_audio(cfg) else "aac-lc"
+                c.o("ea", hx(audio_frame(rng, a)), "%x" % rng.choice([1024, 960, 0, 480, 2048]))
+            elif r < 11:
+                c.o("ea", hx(rng.bytes(rng.range(0, 9))) or "-", "%x" % rng.choice([1024, 960]))
+            else:
+                c.o("wv", fb(rng.choice([0.0, 0.5, 2.0, 10.0])), hx(video_delta(rng, codec)), 0)
+        c.o("fin", rng.choice([0, 0, 3]))
         out.append(c)
     return out
 
